@@ -54,6 +54,21 @@ def make_sample(r, d, k, two_genes, sparse_second=False):
             smp += sim.simulate_reads(g, copies[:1], depth=1, name_prefix=f"s{g.name}", read_len=60)
         else:
             smp += sim.simulate_reads(g, copies, depth=[12, 12, 7][:len(copies)], name_prefix=f"s{g.name}", read_len=r.choice([40, 60, 100]))
+    # reads that run past the end of the RefSeq window, some with a deletion out there: `_make_coverage` folds what lies
+    # outside the window into the reference counts
+    g0 = genes[0][1]
+    hi = max(g0.chr_to_ref)
+    for j in range(4):
+        smp.append({"name": f"edge_d{j}", "pos": hi - 20, "seq": "".join(sim.ref_base(g0, hi - 20 + i) for i in range(57)), "cigar": [(0, 30), (2, 3), (0, 27)], "mapq": 60})
+        smp.append({"name": f"edge_m{j}", "pos": hi - 20, "seq": "".join(sim.ref_base(g0, hi - 20 + i) for i in range(60)), "cigar": [(0, 60)], "mapq": 60})
+    # some observations below the default quality thresholds (mapping quality 10, base quality 10): the dump must carry
+    # them too - depth normalisation, the average-depth guard and the coverage columns count every observation
+    for rd in smp:
+        x = r.random()
+        if x < 0.12:
+            rd["mapq"] = r.choice([0, 3, 9])
+        elif x < 0.3:
+            rd["qual"] = [r.choice([2, 5, 8]) if r.random() < 0.3 else 40 for _ in rd["seq"]]
     # pairs sharing a fragment name make multi-site phase records
     ref += sim.neutral_reads(cnr, 24)
     smp += sim.neutral_reads(cnr, 24)
@@ -174,6 +189,25 @@ def tie(ctx):
             if len(samples) < 2:
                 samples.append({"genes": [g.name for _, g, _ in genes], "gap": gap, "diplotypes": {os.path.basename(kk3): [s.get_major_diplotype() for s in v] for kk3, v in r1.items()},
                                 "output_lines": len((t1 or "").split("\n"))})
+        if not quick:
+            # the shipped sample of the test-suite: reads run past the RefSeq window of CYP2D6 there
+            import tarfile
+            bam = os.path.join(lib.REPO, "aldy/tests/resources/NA10860.bam")
+            dbgdir = os.path.join(d, "na", "dbg")
+            os.makedirs(dbgdir, exist_ok=True)
+            r1 = genotype("cyp2d6", bam, "pgx2", output_file=None, debug=os.path.join(dbgdir, "NA10860"))
+            tar = os.path.join(d, "na", "a.tar.gz")
+            with tarfile.open(tar, "w:gz") as t:
+                t.add(dbgdir, arcname="dbg")
+            r2 = genotype("cyp2d6", tar, None, output_file=None)
+            fam["dump_replay"]["cases"] += 1
+            stats["shipped_sample_replays"] += 1
+
+            def exact(res):
+                return [(s.get_major_diplotype(), repr(s.score), repr(s.major_solution.score), repr(s.major_solution.cn_solution.score)) for v in res.values() for s in v]
+            if exact(r1) != exact(r2):
+                violations.append({"why": f"NA10860 / CYP2D6: replaying the debug archive gives {exact(r2)[:1]}, the original run {exact(r1)[:1]}", "input": {"sample": "NA10860", "gene": "cyp2d6", "profile": "pgx2"},
+                                   "signature": "c17:shipped_sample_replay_differs"})
     finally:
         shutil.rmtree(d, ignore_errors=True)
     outs = lib.driver_batch(reqs)
